@@ -46,7 +46,8 @@ public:
 	~PSession() {}
 
 	// the supervision callbacks are invoked synchronously by the driver ("tick"), never by the timer thread
-	void quiet_timer() { _timer.clear(); _timer.stop(); _timer.join(); }
+	// (no join here: ~Timer joins, and joining twice would wait on a recycled thread id)
+	void quiet_timer() { _timer.clear(); _timer.stop(); }
 
 	bool handle_application(const unsigned seqnum, const Message *&msg) override
 	{
